@@ -38,6 +38,10 @@ def _form(seq, form):
         return tuple(np.int64(i) for i in seq)
     if form == "nparray":
         return np.array([int(i) for i in seq], dtype="int64")
+    if form == "neg":
+        # every other axis counted from the end
+        n_ = len(seq)
+        return tuple(int(i) - n_ if k % 2 == 0 else int(i) for k, i in enumerate(seq))
     return tuple(int(i) for i in seq)
 
 
@@ -859,8 +863,8 @@ def g_transpose(ctx, heap):
     perm = list(range(x.ndim))
     rng.shuffle(perm)
     a = {"perm": None if rng.random() < 0.2 else perm}
-    if a["perm"] is not None and rng.random() < 0.25:
-        a["form"] = rng.choice(["list", "np"])
+    if a["perm"] is not None and rng.random() < 0.3:
+        a["form"] = rng.choice(["list", "np", "neg"])
     if kind_of(x) == "F" and rng.random() < 0.3:
         a["phase"] = rng.random() < 0.6
     if ctx.inplace():
@@ -954,6 +958,8 @@ def g_unfuse(ctx, heap):
         return None
     x = heap[n]
     a = {"axis": ctx.rng.choice(_fused_axes(x))}
+    if ctx.rng.random() < 0.25:
+        a["axis"] -= x.ndim   # the same axis, counted from the end
     if ctx.inplace():
         a["inplace"] = True
     return [{"op": "unfuse", "in": [n], "out": _out(ctx, n, a), "a": a}]
